@@ -386,6 +386,9 @@ func c01Judge(e *c01Env) (violated bool) {
 	o.mu.Lock()
 	defer o.mu.Unlock()
 
+	e.statMu.Lock()
+	kills, replStarts, startFails := e.kills, e.replStarts, len(e.startFails)
+	e.statMu.Unlock()
 	finalGen := e.gen
 	stats := e.replicaStats()
 	rs := o.rejectState(e, t)
@@ -414,7 +417,7 @@ func c01Judge(e *c01Env) (violated bool) {
 			"scenario": sc, "marker": m, "appearances_in_insert_bodies": appearances(m.ID),
 			"agent_replica_stats": stats, "agent_out_of_window_dropped": rs.dropped,
 			"insert_outcomes": outcomes, "healed_at_ms": o.healedMs, "drain_ms": o.drainMs, "drain_extended": o.extended,
-			"agent_restarts": e.restarts, "replica_kills": e.kills, "t0_unix": e.t0.Unix(),
+			"agent_restarts": e.restarts, "replica_kills": kills, "t0_unix": e.t0.Unix(),
 		}
 		if m.Slot != 0 {
 			w["second_last_seen_in_agent"] = o.seen[m.Slot]
@@ -611,8 +614,9 @@ func c01Judge(e *c01Env) (violated bool) {
 	for k, v := range o.counters {
 		r.Count(k, v)
 	}
-	r.Count("replica.kills", int64(e.kills))
-	r.Count("replica.starts", int64(e.replStarts))
+	r.Count("replica.kills", int64(kills))
+	r.Count("replica.starts", int64(replStarts))
+	r.Count("replica.start_retries", int64(startFails))
 	r.Count("agent.restarts", int64(e.restarts))
 	r.Count("agent.seconds_found_on_disk_at_start", int64(len(e.replayed)))
 	r.Count("agent.out_of_window_dropped", rs.dropped)
@@ -654,7 +658,7 @@ func c01Judge(e *c01Env) (violated bool) {
 	effect := map[string]bool{
 		"failed-insert": failedWithMarkers > 0,
 		"cut":           cuts > 0,
-		"kill":          e.kills > 0,
+		"kill":          kills > 0,
 		"keep":          keep > 0,
 		"agent-restart": e.restarts > 0,
 		"late-recent":   rs.lateRecent > 0 || keep > 0,
@@ -666,16 +670,14 @@ func c01Judge(e *c01Env) (violated bool) {
 			continue
 		}
 		r.Count("effect_missing."+m, 1)
-		if m == "failed-insert" || m == "cut" || m == "kill" || m == "agent-restart" {
+		// the quick schedules must exercise the core fault classes (a schedule that never reaches the
+		// mutated path catches nothing); in the thorough tier a class that did not fire is only counted
+		if strings.HasPrefix(sc.Profile, "q-") && (m == "failed-insert" || m == "cut" || m == "kill" || m == "agent-restart") {
 			r.Inconclusive(fmt.Sprintf("scenario %s: fault class %q of the schedule never took effect", sc.Name, m))
 		}
 	}
 	for _, f := range o.failures {
 		r.Inconclusive(fmt.Sprintf("scenario %s: %s", sc.Name, f))
-	}
-	for _, f := range e.startFails {
-		r.Count("replica.start_retries", 1)
-		_ = f
 	}
 	if len(decodeErrs) != 0 {
 		r.Inconclusive(fmt.Sprintf("scenario %s: %d INSERT bodies could not be decoded by the independent reader, first: %s", sc.Name, len(decodeErrs), decodeErrs[0]))
